@@ -58,14 +58,14 @@ def main(argv):
             # checker self-validation: every recorded one-instance mutation must be detected on a scratch copy,
             # every recorded behaviour-preserving edit must stay quiet
             import subprocess, re
-            if pid in ("C07", "C08", "C09", "C11", "C12"):
+            if pid in ("C06", "C07", "C08", "C09", "C11", "C12", "C15", "C16"):
                 # the relational domain these checks rely on: claims it must prove and false claims it must not prove (fixtures/poly.c)
                 from sa import selftest_poly
                 nclaims, wrong = selftest_poly.run()
                 rep.notes.append("relational-domain self-test (fixtures/poly.c): %d claims, %d wrong" % (nclaims, len(wrong)))
                 rep.stats["selftest_poly_claims"] = nclaims
                 rep.stats["selftest_poly_wrong"] = len(wrong)
-                if wrong or nclaims < 20:
+                if wrong or nclaims < 25:
                     selfcheck_failed = True
                     print("\n".join(wrong))
             for corpus in ("mutants", "benign", "seeded"):
